@@ -18,14 +18,20 @@
 EXTENDS DocModel, Json, CSV
 
 CONSTANTS MaxGrow, MaxGrowExt, MaxShrink,
-          Seed, RandPerKind   \* per kind, RandPerKind pseudo-random subsets of 3..8 fields (seeded; beyond the exhaustive bounds)
+          Seed, RandPerKind,  \* per kind, RandPerKind pseudo-random subsets of 3..8 fields (seeded; beyond the exhaustive bounds)
+          MaxHist             \* histories: up to MaxHist prior documents parsed into the same receiver before the document under test
 
-VARIABLES gcase, gdoc
-vars == <<gcase, gdoc>>
+(* ghist: how the document under test reaches the library.  NoHist = the document line: a fresh receiver  *)
+(* for every reader (all entry points and writers, see Trace_C03!DocTrips).  Otherwise a history line:    *)
+(* entry = the way the ONE receiver is filled, prior = the names of the documents parsed into it before.  *)
+VARIABLES gcase, gdoc, ghist
+vars == <<gcase, gdoc, ghist>>
+NoHist == [entry |-> "fresh", prior |-> <<>>]
 
 ExtModes(kind) == {"none"} \cup (IF ExtOK(kind) THEN {"x"} ELSE {})
                            \cup (IF UnkOK(kind) THEN {"unk", "xu"} ELSE {})
 FullExt(kind) == {"none"} \cup (IF UnkOK(kind) THEN {"xu"} ELSE IF ExtOK(kind) THEN {"x"} ELSE {})
+FullExtMax(kind) == IF UnkOK(kind) THEN "xu" ELSE IF ExtOK(kind) THEN "x" ELSE "none"
 
 (* fields that take part in "full" sets: a $ref on the object itself would make every other field a sibling *)
 FullFields(kind) == {n \in Optional(kind) : FieldOf(kind, n).c # "pref"}
@@ -44,7 +50,11 @@ Frag(cc) ==
    LET withF == Apply(cc.kind, Min(cc.kind), cc.fv)
        (* one structured and one scalar extension value (a map-like container that mistook x- keys for    *)
        (* entries would still round-trip an object-valued one)                                            *)
-       withX == IF cc.ext \in {"x", "xu"} THEN SetKey(SetKey(withF, "x-ext", AnyV), "x-n", Nm("1")) ELSE withF
+       (* extension names are data too: the bare prefix "x-", a name with dot, slash and blank; a null-valued  *)
+       (* extension, an array-valued one                                                                   *)
+       withX == IF cc.ext \in {"x", "xu"}
+                THEN SetKey(SetKey(SetKey(SetKey(SetKey(withF, "x-ext", AnyV), "x-n", Nm("1")), "x-", Sv("bare")), "x-A.b/c d", N), "x-arr", AnyArr)
+                ELSE withF
        (* ... and, on a schema, unknown keys that are keywords of LATER drafts (const, if, $comment, examples): still unknown here *)
        withU == IF cc.ext \in {"unk", "xu"} THEN SetKey(withX, "unknownField", O1("u", Nm("1"))) ELSE withX
    IN IF cc.ext \in {"unk", "xu"} /\ cc.kind = "Schema"
@@ -124,7 +134,32 @@ RandCase(ki, r) ==
        exts == ExtModes(kind)
    IN [mode |-> "rand", kind |-> kind, fv |-> {<<fs[j].n, var(j)>> : j \in ok},
        ext |-> Nth(exts, H(h0, 2) % Cardinality(exts)), rm |-> 0]
-Init ==
+(* ---- histories (DocModel, "Receivers and entry points") ---- *)
+(* documents under test: root-kind documents -- the bare root, every single optional root field, all and *)
+(* all-but-one (with extension and unknown key): every subset pattern of fields that the prior document   *)
+(* had and the document under test lacks / has too -- plus one document per other kind with everything   *)
+(* populated (so that the receiver's nested objects of every kind are overwritten as well).               *)
+HistTargets ==
+   UNION {LET kind == Root(v) IN
+          {Case("grow", kind, {}, "none"), Case("grow", kind, {}, "xu"), Case("full", kind, FullFv(kind, "v"), "xu")}
+          \cup {Case("grow", kind, {<<n, "v">>}, "none") : n \in FullFields(kind)}
+          \cup {Case("full", kind, FullFv(kind, "v") \ {<<n, "v">>}, "none") : n \in FullFields(kind)} : v \in {2, 3}}
+   \cup {Case("full", kind, FullFv(kind, "v"), "none") : kind \in {k \in Kinds : ~IsRoot(k) /\ FullFields(k) # {}}}
+   (* documents that ask for external resources (the ones an earlier document of the history may have left in a Loader's caches) *)
+   \cup {Case("full", kind, FullFv(kind, var), "none") : kind \in {"Components", "Paths", "Operation", "Response", "MediaType"}, var \in {"xref", "xfrag"}}
+RECURSIVE SeqsUpTo(_, _)
+SeqsUpTo(S, n) == IF n = 0 THEN {<<>>} ELSE LET shorter == SeqsUpTo(S, n - 1) IN shorter \cup {Append(q, x) : q \in shorter, x \in S}
+Hists(v) == {[entry |-> e, prior |-> q] : e \in HistEntries(v), q \in SeqsUpTo(PriorNames(v), MaxHist) \ {<<>>}}
+(* kind-level receivers (DocModel "Kind-level receivers"): per kind the bare object, the object with every field  *)
+(* (inline; as references where a field can be one) and -- for the wrapper types -- a reference object as input.   *)
+KindTargets ==
+   UNION {{Case("grow", kind, {}, "none"), Case("full", kind, FullFv(kind, "v"), FullExtMax(kind)),
+           Case("full", kind, FullFv(kind, "ref"), "none")} : kind \in {k \in Kinds : FullFields(k) # {}}}
+   \cup {Case("grow", kind, {}, "none") : kind \in {k \in Kinds : FullFields(k) = {}}}
+KHists(kind) == UNION {{[entry |-> e, prior |-> q] : q \in SeqsUpTo(KPriorNames(kind, e), MaxHist) \ {<<>>}} : e \in KindEntries(kind)}
+IsKindHist(h) == h.entry \in {"kind", "wrap"}
+
+InitCase ==
    /\ \/ \E kind \in Kinds : \E ext \in ExtModes(kind) : gcase = Case("grow", kind, {}, ext)
       \/ \E kind \in Kinds, var \in {"v", "ref", "alt", "xref"} : \E ext \in FullExt(kind) :
             /\ FullFields(kind) # {}
@@ -132,6 +167,11 @@ Init ==
             /\ gcase = Case("full", kind, FullFv(kind, var), ext)
       \/ \E ver \in {2, 3}, i \in 1..NSpecialAll : gcase = [mode |-> "special", ver |-> ver, i |-> i]
       \/ \E ki \in DOMAIN KindSeq, r \in 1..RandPerKind : gcase = RandCase(ki, r)
+
+Init ==
+   /\ \/ ghist = NoHist /\ InitCase
+      \/ gcase \in HistTargets /\ ghist \in Hists(Ver(gcase.kind))
+      \/ gcase \in KindTargets /\ ghist \in KHists(gcase.kind)
    /\ gdoc = DocOf(gcase)
 
 Names(fv) == {p[1] : p \in fv}
@@ -148,12 +188,20 @@ Shrink ==
    /\ gcase.mode = "full"
    /\ gcase.rm < MaxShrink
    /\ \E p \in gcase.fv : gcase' = [gcase EXCEPT !.fv = @ \ {p}, !.rm = @ + 1]
-Next == (Grow \/ Shrink) /\ gdoc' = DocOf(gcase')
+Next == ghist = NoHist /\ (Grow \/ Shrink) /\ gdoc' = DocOf(gcase') /\ UNCHANGED ghist
 Spec == Init /\ [][Next]_vars
 
 (* the case as written to cases.ndjson: descriptor (for reports, classes, replay) and document *)
 Descr(cc) == IF cc.mode = "special" THEN cc
              ELSE [mode |-> cc.mode, kind |-> cc.kind, ext |-> cc.ext,
                    fv |-> {[f |-> p[1], var |-> p[2]] : p \in cc.fv}]
-Emit == CSVWrite("%1$s", <<ToJson([d |-> Descr(gcase), ver |-> VerOf(gcase), doc |-> gdoc, ext |-> ExtOf(VerOf(gcase), gdoc)])>>, "cases.ndjson")
+(* a history case carries its prior documents (and the external resources of all of them) *)
+(* ... a kind-level case its prior objects and the bare object under test (frag) *)
+HistOf(v, h) == IF IsKindHist(h)
+                THEN [entry |-> h.entry, prior |-> [i \in DOMAIN h.prior |-> [name |-> h.prior[i], doc |-> KPriorDoc(gcase.kind, h.prior[i])]],
+                      frag |-> Frag(gcase)]
+                ELSE [entry |-> h.entry, prior |-> [i \in DOMAIN h.prior |-> [name |-> h.prior[i], doc |-> PriorDoc(v, h.prior[i])]]]
+AllDocs(v, h) == IF IsKindHist(h) THEN gdoc ELSE Av(<<gdoc>> \o [i \in DOMAIN h.prior |-> PriorDoc(v, h.prior[i])])
+Emit == CSVWrite("%1$s", <<ToJson([d |-> Descr(gcase), ver |-> VerOf(gcase), doc |-> gdoc, ext |-> ExtOf(VerOf(gcase), AllDocs(VerOf(gcase), ghist)),
+                                   hist |-> HistOf(VerOf(gcase), ghist)])>>, "cases.ndjson")
 =============================================================================
